@@ -15,7 +15,7 @@ EPq == {Fin(-2), Fin(0), Fin(3), PInf, NaN, Str(<<12>>), Str(<<13>>), Bool(TRUE)
 EPt == EPq \cup {NZero, NInf, Fin(2), Str(<<>>), Rec(<<>>, <<>>), List(<<>>)}
 EP  == IF Big THEN EPt ELSE EPq
 \* smaller pool for list x list
-LPq == {Fin(3), NaN, Str(<<12>>), Bool(TRUE), Null, List(<<Fin(1)>>)}
+LPq == {Fin(3), NaN, Str(<<12>>), Bool(TRUE), Null, List(<<Fin(1)>>), List(<<NaN>>)}
 LPt == LPq \cup {Fin(-2), Bool(FALSE), PInf}
 LP  == IF Big THEN LPt ELSE LPq
 
